@@ -13,7 +13,7 @@ from .bmc import BMC
 from .front import Unsupported
 from .mcond import CondScenario
 from .model import END
-from .replay_cond import Divergence, Sched, build_real_condition
+from .replay_cond import Divergence, Sched, build_real_condition, with_sched_fields
 
 
 def _popcount(bools, w=4):
@@ -66,10 +66,11 @@ def observe(sc, cfg, inputs, trace):
     procs = {t.name: t.proc for t in threads}
     tids = {t.name: t.tid for t in threads}
     names = {"lock": "lock", "sleeping": "sleeping", "woken": "woken", "waitsem": "waitsem"}
-    cond = build_real_condition(sched, names, cfg.get("lock_cls", "RLock"), procs, tids)
+    cond = build_real_condition(sched, names, cfg.get("lock_cls", "RLock"), procs, tids, comp=sc.comp)
     g = {"slept": set(), "reg": set(), "to": set(), "ret": {}, "tokens": 0, "badlock": False, "notified": False}
     wt = {t.name for t in threads if t.name.startswith("W")}
-    depth = 2 if cfg.get("reentrant") else 1
+    re_ = cfg.get("reentrant")
+    depth_of = {t.name: (2 if (re_ is True or (re_ == "mixed" and t.tid == 1)) else 1) for t in threads}
     me = sched.tname
 
     def h_sleep():
@@ -95,7 +96,7 @@ def observe(sc, cfg, inputs, trace):
         def wait_returned(self, r):
             sl = cond._lock._semlock
             if sl.kind == 0:
-                holds = sl._mine() and sl._count() == depth
+                holds = sl._mine() and sl._count() == depth_of[me()]
             else:
                 holds = sl.v == 0 and sl._mine()
             g["ret"][me()] = 1 if r else 2
@@ -109,11 +110,11 @@ def observe(sc, cfg, inputs, trace):
             g["notified"] = True
     obs = Obs()
     bodies = {}
-    fn = drivers_cond.waiter_reentrant if cfg.get("reentrant") else drivers_cond.waiter
     for t in threads:
         if t.name.startswith("W"):
             to = inputs.get(f"in.timeout.{t.tid}")
-            bodies[t.name] = (lambda to=to: fn(cond, obs, 1.0 if to else None))
+            fn = drivers_cond.waiter_reentrant if depth_of[t.name] == 2 else drivers_cond.waiter
+            bodies[t.name] = (lambda to=to, fn=fn: fn(cond, obs, 1.0 if to else None))
         elif t.name.startswith("N"):
             j = int(t.name[1:]) - 1
             ua = inputs.get(f"in.all.{j}")
@@ -197,8 +198,9 @@ def observe_event(sc, cfg, inputs, trace):
     procs = {t.name: t.proc for t in threads}
     tids = {t.name: t.tid for t in threads}
     names = {"lock": "lock", "sleeping": "sleeping", "woken": "woken", "waitsem": "waitsem"}
-    cond = build_real_condition(sched, names, "Lock", procs, tids)
-    ev = sy.Event.__new__(sy.Event)
+    cond = build_real_condition(sched, names, "Lock", procs, tids, comp=sc.comp)
+    EvCls = with_sched_fields(sy.Event, sched, "ev", sc.comp)
+    ev = EvCls.__new__(EvCls)
     ev._cond = cond
     flag = sy.Semaphore.__new__(sy.Semaphore)
     flag._semlock = TwinSemLock(sched, "flag.sl", 1, 0, 15, procs, tids)
